@@ -17,6 +17,7 @@
 # -----------------------------------------------------------------------------
 import asyncio as aio
 import logging
+import struct
 from .. import encoding as enc
 from .. import security as sec
 from .. import types
@@ -52,7 +53,12 @@ class NfdRegister(PrefixRegisterer):
                     app_param=b'', signer=sec.DigestSha256Signer(for_interest=True),
                     validator=pass_all,
                     lifetime=1000)
-                ret = nfd_mgmt.parse_response(reply)
+                try:
+                    ret = nfd_mgmt.parse_response(reply)
+                except (enc.DecodeError, TypeError, ValueError, IndexError, struct.error):
+                    logging.getLogger(__name__).error('Registration for %s failed: malformed response',
+                                                      enc.Name.to_str(name))
+                    return False
                 if ret['status_code'] != 200:
                     logging.getLogger(__name__).error('Registration for %s failed: %s %s',
                                                       enc.Name.to_str(name), ret["status_code"], ret["status_text"])
@@ -76,10 +82,14 @@ class NfdRegister(PrefixRegisterer):
                     break
                 await aio.sleep(0.001)
             try:
-                await self.app.express(
+                _, reply, _ = await self.app.express(
                     nfd_mgmt.make_command_v2('rib', 'unregister', self.app.face, name=name),
                     app_param=b'', signer=sec.DigestSha256Signer(for_interest=True),
                     validator=pass_all, lifetime=1000)
-                return True
+                try:
+                    ret = nfd_mgmt.parse_response(reply)
+                except (enc.DecodeError, TypeError, ValueError, IndexError, struct.error):
+                    return False
+                return ret['status_code'] == 200
             except (types.InterestNack, types.InterestTimeout, types.InterestCanceled, types.ValidationFailure):
                 return False
